@@ -30,7 +30,8 @@ from ..engine import SymBool
 from ..base import Goal
 from .k5_apply import FAMILY, ARITY, OPS
 
-FUNCTIONS = ['dd.bdd.BDD.apply', 'dd._utils.assert_operator_arity']
+FUNCTIONS = ['dd.bdd.BDD.apply', 'dd._utils.assert_operator_arity',
+             'pyx:cudd.pyx', 'pyx:cudd_zdd.pyx', 'pyx:sylvan.pyx', 'pyx:buddy.pyx']
 CUTS = ['the C libraries themselves (CUDD, Sylvan, BuDDy) and Cython code generation: library calls are bound to their documented meaning',
         'methods the normaliser cannot turn into Python are listed in evidence as not_normalised']
 LIB_TABLE = ['Cudd_Not = ~', 'Cudd_bddAnd/Or/Xor/Xnor = & | ^ xnor', 'Cudd_bddIte = ite',
@@ -231,6 +232,8 @@ def lib_namespace():
         Cudd_bddExistAbstract=b(lambda m, f, c: quant_by_support(f, c, False)),
         Cudd_ReadZddOne=read_zdd_one, Cudd_NodeReadIndex=node_read_index,
         Cudd_ReadPerm=lambda m, i: i, Cudd_ReadPermZdd=lambda m, i: i,
+        Cudd_IsConstant=lambda n: SymBool(z3.Or(n.bv == ONES, n.bv == ZERO)),
+        Cudd_Regular=lambda n: n, Cudd_IsComplement=lambda n: SymBool(z3.Extract(W - 1, W - 1, n.bv) == 0),
         Cudd_zddDiff=b(lambda m, a, c: a & ~c), Cudd_zddUnion=b(lambda m, a, c: a | c),
         Cudd_zddIntersect=b(lambda m, a, c: a & c),
         Cudd_zddIte=b(lambda m, g, a, c: (g & a) | (~g & c)),
